@@ -70,6 +70,8 @@ type Contract struct {
 	Loops     map[int]*LoopSpec
 	Iterates  []*IterSpec
 	CallInvs  map[int][]*Clause
+	AtAsserts map[string][]*Clause // callee name -> assertions at its call sites
+	atUsed    map[string]bool
 	File      string
 	Line      int
 	Used      bool
@@ -159,7 +161,7 @@ func NewContractSet() *ContractSet {
 
 var reFuncHdr = regexp.MustCompile(`^func\s+(?:\(([^)]*)\)\s*)?([A-Za-z_$][\w$.\[\],]*)`)
 var rePropLabel = regexp.MustCompile(`^\s*((?:C\d+,?)+/)?([A-Za-z_][\w\-.]*)\s*:\s+`)
-var keywords = []string{"iterates", "call", "preserves", "guarded", "captures", "nonnilpkg", "immutable", "assumes", "typeinv", "purepkg", "noreturn", "func", "iface", "props", "requires", "ensures", "modifies", "decreases", "may_panic", "no_panic", "pure", "trusted", "opaque", "inline", "loop", "ghost", "spec", "define", "axiom", "package"}
+var keywords = []string{"iterates", "at", "call", "preserves", "guarded", "captures", "nonnilpkg", "immutable", "assumes", "typeinv", "purepkg", "noreturn", "func", "iface", "props", "requires", "ensures", "modifies", "decreases", "may_panic", "no_panic", "pure", "trusted", "opaque", "inline", "loop", "ghost", "spec", "define", "axiom", "package"}
 
 func startsWithKeyword(s string) string {
 	for _, k := range keywords {
@@ -203,8 +205,16 @@ func (cs *ContractSet) LoadFile(path, pkg string, trusted bool) {
 				in = false
 			}
 		}
-		if idx := strings.Index(l, "//"); idx >= 0 {
-			l = l[:idx]
+		// a comment starts at the first // that is not inside a string literal
+		inStr := false
+		for idx := 0; idx+1 < len(l); idx++ {
+			if l[idx] == '"' && (idx == 0 || l[idx-1] != '\\') {
+				inStr = !inStr
+			}
+			if !inStr && l[idx] == '/' && l[idx+1] == '/' {
+				l = l[:idx]
+				break
+			}
 		}
 		t := strings.TrimSpace(l)
 		if t == "" {
@@ -487,6 +497,21 @@ func (cs *ContractSet) LoadFile(path, pkg string, trusted bool) {
 					continue
 				}
 				cur.Iterates = append(cur.Iterates, &IterSpec{Param: m[1], Var: m[2], Where: e, Src: m[3]})
+			case "at":
+				// at <Callee> assert [label:] expr : an assertion over the caller's locals that has to
+				// hold whenever this function calls <Callee> (T.Method or function name)
+				f := strings.Fields(rest)
+				if len(f) < 3 || f[1] != "assert" {
+					errf(l.line, "bad at clause (want: at <Callee> assert expr)")
+					continue
+				}
+				body := strings.TrimSpace(strings.TrimPrefix(strings.TrimSpace(strings.TrimPrefix(rest, f[0])), "assert"))
+				if c := parseClause(body, l.line); c != nil {
+					if cur.AtAsserts == nil {
+						cur.AtAsserts = map[string][]*Clause{}
+					}
+					cur.AtAsserts[f[0]] = append(cur.AtAsserts[f[0]], c)
+				}
 			case "call":
 				// call <n> invariant [label:] expr : invariant of the callback iteration at the n-th call
 				f := strings.Fields(rest)
